@@ -1,13 +1,32 @@
-/- Driver handlers for the C12 correspondence streams (record ranges of worker goroutines). -/
+/- Driver handlers for the C12 correspondence streams (record ranges of worker goroutines, slot bookkeeping). -/
 import Csvq.Gen.RecordRange
+import Csvq.Model.Slots
 namespace Csvq.Drive
 
-/-- GoroutineManager.AssignRoutineNumber with no other goroutines borrowed (Count = 0) -/
+/-- GoroutineManager.AssignRoutineNumber (regenerated) with no other goroutines borrowed (Count = 0) -/
 def assignNumber (recordLen minReq cpu : Int) : Int :=
-  let gtz := fun (i : Int) => if i < 1 then 1 else i
-  let minReq := if minReq < 1 then 80 else minReq
-  let number := min cpu (gtz (recordLen / minReq))
-  min number (gtz number)
+  (Csvq.Gen.assignRoutineNumber recordLen minReq cpu Csvq.Gen.managerInit.1 Csvq.Gen.managerInit.2).1
+
+def slotOp (tok : String) : Option Csvq.Slots.Op :=
+  match tok.splitOn ":" with
+  | ["n", l, m, c] =>
+    match l.toInt?, m.toInt?, c.toInt? with
+    | some l, some m, some c => some (.new l m c)
+    | _, _, _ => none
+  | ["d", k] => k.toNat?.map .done
+  | _ => none
+
+def slotsRun : Csvq.Slots.St → List String → Option (List String)
+  | _, [] => some []
+  | s, tok :: rest =>
+    match slotOp tok with
+    | none => none
+    | some op =>
+      let s' := Csvq.Slots.step s op
+      let out := match op with
+        | .new l m c => s!"{Csvq.Slots.numberIn s l m c}/{s'.count}"
+        | .done _ => toString s'.count
+      (slotsRun s' rest).map (out :: ·)
 
 def c12 (cmd : String) (args : List String) : String :=
   match cmd, args with
@@ -21,6 +40,14 @@ def c12 (cmd : String) (args : List String) : String :=
       String.intercalate "," ((List.range n).map fun (k : Nat) =>
         let r := Csvq.Gen.recordRange l (Int.ofNat n) (Int.ofNat k)
         s!"{r.1}-{r.2}")
+    | _, _ => "bad-op"
+  | "slots", toks =>
+    match slotsRun Csvq.Slots.init toks with
+    | some outs => String.intercalate " " outs
+    | none => "bad-op"
+  | "setcpu", [i, n] =>
+    match i.toInt?, n.toInt? with
+    | some i, some n => toString (Csvq.Gen.setCPU i n 0)
     | _, _ => "bad-op"
   | _, _ => "bad-op"
 
